@@ -257,9 +257,13 @@ Definition u_instant (v : string) : res instant :=
   match parse_utc v with Some s => Ok (s, 0%Z) | None => Err 400 end.
 
 (** The attribute loop of [Decoder.unmarshal]: every attribute, in document
-    order, is offered to the struct's attribute fields by local name. *)
+    order, is offered to the struct's attribute fields by local name.  Since
+    the repair eba20a7 the decoder of a REPORT request reads its tokens through
+    [unqualifiedAttrReader] (caldav/elements.go), which removes namespace
+    declarations with a prefix and every attribute that belongs to a
+    namespace: only attributes in no namespace reach the loop. *)
 Definition fold_attrs {W} (set : string -> string -> W -> res W) (a : list xattr) (w : W) : res W :=
-  fold_res (fun w x => set (a_local x) (a_value x) w) a w.
+  fold_res (fun w x => if str_empty (a_space x) then set (a_local x) (a_value x) w else Ok w) a w.
 
 Definition tm_set (l v : string) (w : w_text_match) : res w_text_match :=
   if String.eqb l "collation" then
@@ -496,10 +500,11 @@ Definition u_cal_data_req (init : w_cal_data_req) (t : xtree) : res w_cal_data_r
   end.
 
 (** [internal.Prop] ([Raw []RawXMLValue `xml:",any"`]): every child element is
-    captured, without its namespace declarations (RawXMLValue.UnmarshalXML). *)
+    captured, without its namespace declarations (RawXMLValue.UnmarshalXML),
+    from the token stream [unqualifiedAttrReader] has already filtered. *)
 Definition dprop_kid (w : w_prop) (kid : xtree) : res w_prop :=
   match kid with
-  | Elem _ _ _ => Ok (w ++ [strip_decls kid])%list
+  | Elem _ _ _ => Ok (w ++ [strip_decls (strip_foreign kid)])%list
   | _ => Ok w
   end.
 Definition u_dprop (init : w_prop) (t : xtree) : res w_prop :=
@@ -1284,27 +1289,22 @@ Definition backend_call_of (path : string) (r : request) : backend_call :=
 
 (** ** 2e. Lexical variants of a document
 
-    [lexvar t t']: [t'] differs from [t] only in ways XML and the RFC's DTD
-    declare insignificant.  Prefixes are already gone in expanded trees; what
-    remains is
-    - attribute order, namespace declarations among the attributes, attributes
-      the DTD gives a default value spelled out with that value,
+    [lexvar t t']: [t'] differs from [t] only in ways XML, XML namespaces and
+    the RFC's DTD declare insignificant.  Prefixes are already gone in expanded
+    trees; what remains is
+    - attribute order; namespace declarations and attributes from other
+      namespaces among the attributes (any prefix, also one spelled like an
+      attribute of the grammar: [xmlns:name], [x:start]); attributes the DTD
+      gives a default value spelled out with that value,
     - comments anywhere, white space between the children of an element that
       has element content, empty character-data tokens,
     - character data delivered in several pieces (CDATA sections, comments in
-      the middle of a text).
-
-    One restriction, visible here and needed ([C08_decl_shadows_attr_refuted]):
-    a namespace declaration may not use as its prefix the name of one of the
-    grammar's attributes ([reserved]); known finding kf-c08-decl-shadows-attr. *)
+      the middle of a text). *)
 
 Definition pcdata (n : xname) : bool := name_eqb n (cn "text-match") || name_eqb n (dn "href").
 
-Definition reserved (l : string) : bool :=
-  String.eqb l "name" || String.eqb l "start" || String.eqb l "end"
-  || String.eqb l "collation" || String.eqb l "negate-condition".
-
-Definition safe_decl (x : xattr) : bool := is_decl x && negb (reserved (a_local x)).
+(** a namespace declaration or an attribute that belongs to a namespace *)
+Definition foreign (x : xattr) : bool := negb (str_empty (a_space x)) || is_decl x.
 
 (** attributes with a default value in the DTD (RFC 4791 9.6, 9.6.4, 9.7.5) *)
 Definition default_attrs (n : xname) : list xattr :=
@@ -1314,7 +1314,7 @@ Definition default_attrs (n : xname) : list xattr :=
   else [].
 
 Definition extra_ok (n : xname) (a : list xattr) (x : xattr) : Prop :=
-  safe_decl x = true \/ (In x (default_attrs n) /\ ~ In (fst x) (map fst a)).
+  foreign x = true \/ (In x (default_attrs n) /\ ~ In (fst x) (map fst a)).
 
 Definition attrs_var (n : xname) (a a' : list xattr) : Prop :=
   exists extra, Permutation (a ++ extra) a' /\ Forall (extra_ok n a) extra /\ NoDup (map fst a').
@@ -1331,11 +1331,12 @@ with kids_var : bool -> list xtree -> list xtree -> Prop :=
 | KV_empty b k k' : kids_var b k k' -> kids_var b k (Text "" :: k')
 | KV_split b s1 s2 k k' : kids_var b (Text s2 :: k) k' -> kids_var b (Text (s1 ++ s2) :: k) (Text s1 :: k').
 
-(** Known finding kf-c08-decl-shadows-attr: [encoding/xml] matches attribute
-    fields by local name in any namespace, so a namespace declaration (or a
-    foreign attribute) spelled like an attribute of the grammar and written
-    after it takes its place.  Selector: some element carries such an
-    attribute. *)
+(** Statistics only: the documents that exercise the repair eba20a7 (a
+    declaration or foreign attribute spelled like an attribute of the grammar;
+    before the repair [encoding/xml] took it for that attribute). *)
+Definition reserved (l : string) : bool :=
+  String.eqb l "name" || String.eqb l "start" || String.eqb l "end"
+  || String.eqb l "collation" || String.eqb l "negate-condition".
 Definition shadow_attr (x : xattr) : bool := negb (String.eqb (a_space x) "") && reserved (a_local x).
 Fixpoint has_shadow (t : xtree) : bool :=
   match t with
@@ -1395,16 +1396,9 @@ Definition sb {P Q : Prop} (d : {P} + {Q}) : bool := if d then true else false.
 
 (** A sufficient, decidable test that [doc] is a lexical variant of the
     canonical tree [t] (used by the oracle to tie the harness's own serialiser
-    to [rfc_write]; sound use only: a case it rejects is reported, never
-    silently dropped). *)
-(** [strict = true]: the relation above.  [strict = false]: the same, but any
-    namespace declaration and any attribute in a foreign namespace is let
-    through (the domain of the known finding). *)
-Definition canon_attrs (strict : bool) (n : xname) (a : list xattr) : list xattr :=
-  filter (fun x =>
-            (if strict then negb (is_decl x)
-             else String.eqb (a_space x) "" && negb (String.eqb (a_local x) "xmlns"))
-            && negb (sb (in_dec xattr_eq_dec x (default_attrs n)))) a.
+    to [rfc_write]; a case it rejects is reported, never silently dropped). *)
+Definition canon_attrs (n : xname) (a : list xattr) : list xattr :=
+  filter (fun x => negb (foreign x) && negb (sb (in_dec xattr_eq_dec x (default_attrs n)))) a.
 
 Definition attrs_perm_b (a b : list xattr) : bool :=
   Nat.eqb (List.length a) (List.length b)
@@ -1414,26 +1408,24 @@ Definition attrs_perm_b (a b : list xattr) : bool :=
 Definition names_nodup_b (a : list xattr) : bool :=
   sb (ListDec.NoDup_dec xname_eq_dec (map fst a)).
 
-Fixpoint variant_gen (strict : bool) (t doc : xtree) {struct t} : bool :=
+Fixpoint variant_b (t doc : xtree) {struct t} : bool :=
   match t, doc with
   | Text s, Text s' => String.eqb s s'
   | Elem n a k, Elem n' a' k' =>
     name_eqb n n'
     && names_nodup_b a'
-    && (negb strict || forallb (fun x => negb (is_decl x) || safe_decl x) a')
-    && attrs_perm_b a (canon_attrs strict n a')
+    && attrs_perm_b a (canon_attrs n a')
     && (if pcdata n
         then no_elems k' && String.eqb (text_of k) (text_of k')
         else content_ok k'
              && (fix go (l : list xtree) (l' : list xtree) {struct l} : bool :=
                    match l, l' with
                    | [], [] => true
-                   | x :: r, y :: r' => variant_gen strict x y && go r r'
+                   | x :: r, y :: r' => variant_b x y && go r r'
                    | _, _ => false
                    end) k (elems k'))
   | _, _ => false
   end.
-Definition variant_b : xtree -> xtree -> bool := variant_gen true.
 
 (** no backend call is made for an empty href list: the component request is
     then not observable *)
@@ -1474,13 +1466,5 @@ Definition server_spec_ok (path : string) (r : request) (doc : xtree) (call : re
   then sb (res_call_eq_dec call (Ok (backend_call_of path r)))
        && sb (opt_request_eq_dec (rfc_read href_parse doc) (Some r))
   else true.
-
-(** Known finding kf-c08-decl-shadows-attr: the document is a variant of
-    [rfc_write r] except for a shadowing declaration / foreign attribute, and the
-    backend did not get the request it denotes. *)
-Definition server_kf (path : string) (r : request) (doc : xtree) (call : res backend_call) : bool :=
-  valid href_fmt href_parse r && has_shadow doc
-  && variant_gen false (rfc_write href_fmt r) doc
-  && negb (sb (res_call_eq_dec call (Ok (backend_call_of path r)))).
 
 End Verdicts.
